@@ -131,6 +131,14 @@ def design_level(pid, tier, seed, scale):
         stats.append(st)
         if not ok and not st.get('timed_out'):
             mach.append(('mc:' + cfg, 'TLC reports an error in the contract model:\n' + out[-3000:]))
+    if P.get('json_mc'):
+        for cfg in ('JsonVal_pairs.cfg',):
+            ok, st, out = tlc.model_check(cfg, 'JsonValMC.tla', workers=16, timeout=600, heap='8g')
+            st['cfg'] = cfg
+            st['exhaustive'] = ok
+            stats.append(st)
+            if not ok:
+                mach.append(('mc:' + cfg, 'JsonValMC law fails:\n' + out[-2500:]))
     sim = P.get('sim', ('MC_sim.cfg', 100, 1500, 60))
     if sim:
         cfg, nq, nt, depth = sim
@@ -242,6 +250,8 @@ def run_fault_property(pid, tier, seed, scale=1.0):
 
 
 def replay(pid, path):
+    if pid == 'C18':
+        return replay_c18(path)
     with open(path) as f:
         d = json.load(f)
     sc = d['scenario']
@@ -259,4 +269,126 @@ def replay(pid, path):
 
 def selftest():
     print('selftest not built yet')
+    return 0
+
+
+# ---------------------------------------------------------------------------
+# C18: JSON helper laws
+def check_c18(tier, seed, scale=1.0):
+    import json as _json
+    from . import jsonbind
+    from file_builder.json_util import JsonUtil
+    t0 = time.time()
+    pid = 'C18'
+    mc_stats = []
+    mach = []
+    jobs = [('JsonVal_pairs.cfg', 600), ('JsonVal_triples.cfg', 600)]
+    for cfg, tmo in jobs:
+        ok, st, out = tlc.model_check(cfg, 'JsonValMC.tla', workers=16, timeout=tmo, heap='8g')
+        st['cfg'] = cfg
+        st['exhaustive'] = ok
+        mc_stats.append(st)
+        if not ok:
+            mach.append((cfg, 'JsonValMC: a law of the JSON value algebra fails in the specification itself\n' + out[-2500:]))
+    n_rand = int((300 if tier == 'quick' else 2500) * scale)
+    pool = jsonbind.base_pool() + jsonbind.random_values(seed, n_rand)
+    # de-duplicate by type-exact rendering, keep order
+    seen, uniq = set(), []
+    for v in pool:
+        k = terms_show(v)
+        if k not in seen:
+            seen.add(k)
+            uniq.append(v)
+    pool = uniq
+    violations = []
+    states = sum(s.get('distinct', 0) for s in mc_stats)
+    transitions = sum(s.get('states', 0) for s in mc_stats)
+    validated = 0
+    samples = []
+    try:
+        verdicts, st, vals = jsonbind.run(pool, jsonbind.NON_JSON, JsonUtil)
+        states += st['distinct']
+        transitions += st['states']
+        seen_hdr = set()
+        for kind, clause, idx in verdicts:
+            if kind == 'header':
+                if clause and (clause, idx) not in seen_hdr:
+                    seen_hdr.add((clause, idx))
+                    violations.append((clause, idx, vals[idx - 1]))
+            else:
+                if clause:
+                    violations.append((clause, idx, vals[idx - 1]))
+                else:
+                    validated += 1
+        samples = [{'value': repr(v)[:120], 'term': terms_to(v)} for v in pool[300:303]]
+    except Exception as x:
+        mach.append(('jsonbind', repr(x)[:2500]))
+    reported = 0
+    os.makedirs(runner.REPLAY_DIR, exist_ok=True)
+    for clause, idx, v in violations[:20]:
+        if clause.startswith('H:'):
+            mach.append(('jsonbind', '%s for value %r' % (clause, v)))
+            continue
+        path = os.path.join(runner.REPLAY_DIR, 'C18_%s_%d.json' % (clause, idx))
+        with open(path, 'w') as f:
+            _json.dump({'property': pid, 'clause': clause, 'value_repr': repr(v), 'term': terms_to(v),
+                        'pool_index': idx, 'seed': seed, 'tier': tier}, f, indent=1)
+        print('VIOLATION property=%s replay=%s clause=%s value=%s' % (pid, path, clause, repr(v)[:80]))
+        reported += 1
+    cov = {'states': states, 'transitions': transitions, 'traces_validated_against_impl': validated,
+           'evaluations': len(pool) * len(pool) + len(pool) + len(jsonbind.NON_JSON),
+           'distinct_nontrivial': len(pool),
+           'rule': 'value pool = structured universe over the colliding atoms (None, False, True, 0, 1, 1.0, -0.0, "", '
+                   '"1", "a", 2^63, 2^100, +-inf, ...) with lists/tuples/dicts of depth <= 3, subclass instances, '
+                   'plus seeded random deep values; every value (sanitize = JSON round trip, idempotent, no shared '
+                   'mutable structure, TypeError for non-JSON) and EVERY ordered pair (is_equal vs. the spec\'s Eq, '
+                   'symmetry, to_hashable equality iff is_equal) is judged by TLC (JsonTrace); distinct = distinct values '
+                   'by type-exact rendering',
+           'samples': samples or [{'note': 'none'}],
+           'pool_size': len(pool), 'pairs': len(pool) ** 2, 'non_json_values': len(jsonbind.NON_JSON),
+           'tlc': {'model_checking': mc_stats}, 'machinery_failures': len(mach)}
+    runner.write_evidence(pid, tier, seed, cov, time.time() - t0, reported, [
+        'TLC evaluates JsonVal correctly', 'terms.py (value <-> term, numeric ids) is faithful',
+        'NaN excluded as the property states'])
+    for m in mach[:5]:
+        print('MACHINERY-FAILURE', m[0], str(m[1])[:2000])
+    if reported:
+        return 1
+    if mach:
+        return 2
+    print('OK property=C18 tier=%s pool=%d pairs=%d states=%d wall=%.1fs' % (tier, len(pool), len(pool) ** 2, states,
+                                                                          time.time() - t0))
+    return 0
+
+
+def terms_show(v):
+    from . import terms
+    return terms.show(v) if not isinstance(v, (set, frozenset)) else repr(v)
+
+
+def terms_to(v):
+    from . import terms
+    return terms.to_term(v)
+
+
+SPECIAL['C18'] = check_c18
+
+
+def replay_c18(path):
+    import json as _json
+    from . import jsonbind, terms
+    from file_builder.json_util import JsonUtil
+    with open(path) as f:
+        d = _json.load(f)
+    try:
+        v = terms.from_term(d['term'])
+    except Exception:
+        print('cannot rebuild the value from its term; value was', d['value_repr'])
+        return 2
+    verdicts, st, vals = jsonbind.run([v] + jsonbind.base_pool()[:200], [], JsonUtil, jobs=2)
+    bad = [(k, c, i) for k, c, i in verdicts if c]
+    print('value', repr(v), 'verdicts', bad[:5])
+    if bad:
+        print('VIOLATION property=C18 replay=%s clause=%s' % (path, bad[0][1]))
+        return 1
     return 0
